@@ -6,7 +6,19 @@ tree; anything not recognised raises AnalysisError (decline), never a guess.  No
   resolve_regex(m, fn, expr)          a regex OBJECT expression -> RegexDef(pattern, flags, where)
   regex_call(m, fn, call)             `R.match(x)` / `re.fullmatch(p, x)` -> (RegexDef, mode, subject expr)
   Translator(m, fn, param).cond(e)    language of the strings `param` for which expression e is truthy
+  Translator(m, fn, param).cond2(e)   (truthy language, falsy language); strings in neither make the evaluation raise
   function_language(m, fn, param, accept='bool'|'no-raise')
+
+Idioms (all decided exactly, as regular languages over all Unicode strings):
+  * regex calls in the three matching modes, on the parameter or on a normalised copy of it
+  * str predicates isascii/isdigit/isalpha/isalnum/isdecimal/isnumeric/isspace/isprintable/islower/isupper/isidentifier as
+    code-point tables of the running interpreter; startswith/endswith/in/==/len comparisons; s[0], s[-1], s[k]
+  * all()/any() over the characters, or over the parts of `re.split(<one-character class>, s)` / `s.split('<c>')`, with an
+    arbitrary per-element predicate (a nested translation); `for` loops over the same with raise/return/continue bodies
+  * normalisation before the test - s.lower() / .upper() / .casefold() / .strip() / .lstrip() / .rstrip() / .replace('<c>', t) /
+    constant slices - as the PREIMAGE of the tested language, whether written inline, through a local, or by rebinding the parameter;
+    `s == s.lower()` etc. as fixed-point languages
+  * set(s) <= set(ALLOWED) and friends; locals holding a match object or a boolean
 """
 from __future__ import annotations
 
@@ -33,6 +45,9 @@ _STRING_CONSTANTS = {
     'string.ascii_letters': 'abcdefghijklmnopqrstuvwxyzABCDEFGHIJKLMNOPQRSTUVWXYZ',
     'string.digits': '0123456789',
     'string.hexdigits': '0123456789abcdefABCDEF',
+    'string.octdigits': '01234567',
+    'string.punctuation': '!"#$%&\'()*+,-./:;<=>?@[\\]^_`{|}~',
+    'string.whitespace': ' \t\n\r\x0b\x0c',
 }
 _CHAR_METHODS = ('isascii', 'isdigit', 'islower', 'isupper', 'isalpha', 'isalnum', 'isdecimal', 'isnumeric', 'isspace')
 # whole-string str methods whose meaning is "non-empty and every character satisfies the predicate"
@@ -110,6 +125,13 @@ def const_string(m: pf.Module, fn: Optional[pf.FuncDef], e: ast.AST, depth: int 
     s = pf.const_str(e)
     if s is not None:
         return s
+    if isinstance(e, ast.BinOp) and isinstance(e.op, ast.Add) and depth > 0:
+        return const_string(m, fn, e.left, depth) + const_string(m, fn, e.right, depth)
+    if isinstance(e, ast.Attribute) and isinstance(e.value, ast.Name) and not _is_local(fn, e.value.id) \
+            and imports_of(m).get(e.value.id) == 'string' and 'string.' + e.attr in _STRING_CONSTANTS:
+        return _STRING_CONSTANTS['string.' + e.attr]
+    if isinstance(e, ast.Name) and not _is_local(fn, e.id) and imports_of(m).get(e.id, '') in _STRING_CONSTANTS:
+        return _STRING_CONSTANTS[imports_of(m)[e.id]]
     if isinstance(e, ast.Name) and depth > 0:
         if _is_local(fn, e.id):
             d = pf.single_def(fn, e.id)  # type: ignore[arg-type]
@@ -289,22 +311,98 @@ def regex_call(m: pf.Module, fn: Optional[pf.FuncDef], call: ast.AST, package_ro
 # predicates on one string parameter
 # --------------------------------------------------------------------------------------
 
+_CASE_MAPS = {'lower': str.lower, 'upper': str.upper, 'casefold': str.casefold}
+_SIGMA = 0x3A3  # the only code point whose str.lower() image depends on its context (final sigma)
+_LEN_LIMIT = 400
+
+Pair = Tuple[R.Lang, R.Lang]
+
+
+def _total(L: R.Lang) -> Pair:
+    return L, ~L
+
+
+def _any_n(n: int) -> R.Re:
+    return R.rep(R.anychar(), n, n)
+
+
+def _one_char() -> R.Lang:
+    return R.lang(R.anychar(), 'one character')
+
+
+def _int_const(e: ast.AST) -> Optional[int]:
+    if isinstance(e, ast.Constant) and isinstance(e.value, int) and not isinstance(e.value, bool):
+        return e.value
+    if isinstance(e, ast.UnaryOp) and isinstance(e.op, ast.USub) and isinstance(e.operand, ast.Constant) \
+            and isinstance(e.operand.value, int) and not isinstance(e.operand.value, bool):
+        return -e.operand.value
+    return None
+
+
+def fixed_points(kind: str) -> R.CharSet:
+    """code points c with c.lower() == c (resp. upper / casefold)."""
+    f = _CASE_MAPS[kind]
+    return R.tabulate(f'str.{kind}.fixed', lambda c: f(c) == c)
+
+
+def whole_string_predicate(attr: str) -> Optional[R.Lang]:
+    """The language of the strings s with s.<attr>() true, for the str predicate methods, from code-point tables of the running
+    interpreter (CPython semantics of the method on strings of any length)."""
+    if attr == 'isascii':
+        return R.lang(R.star(R.chars(R.pred('str.isascii'))), 'isascii')
+    if attr == 'isprintable':
+        return R.lang(R.star(R.chars(R.pred('str.isprintable'))), 'isprintable')
+    if attr in _ALL_CHARS_NONEMPTY:
+        return R.lang(R.plus(R.chars(R.pred('str.' + attr))), attr)
+    if attr in ('islower', 'isupper'):
+        # at least one cased character of the right case, and no character that spoils it (upper/title resp. lower/title case):
+        # a character spoils iff appending it to a string that satisfies the predicate makes it false
+        good = 'a' if attr == 'islower' else 'A'
+        meth = getattr(str, attr)
+        spoil = R.tabulate(f'str.{attr}.spoils', lambda c: not meth(good + c))
+        cased = R.pred('str.' + attr) - spoil
+        ok = R.chars(~spoil)
+        return R.lang(R.seq(R.star(ok), R.chars(cased), R.star(ok)), attr)
+    if attr == 'isidentifier':
+        start = R.pred('str.isidentifier')
+        cont = R.tabulate('str.isidentifier.continue', lambda c: ('a' + c).isidentifier())
+        return R.lang(R.seq(R.chars(start), R.star(R.chars(cont))), 'isidentifier')
+    return None
+
 
 class Translator:
-    def __init__(self, m: pf.Module, fn: Optional[pf.FuncDef], param: str, package_roots: Optional[Dict[str, str]] = None):
+    """Translation of expressions over ONE string variable `param` into regular languages.
+
+    env (per control-flow path, maintained by function_language): local name ->
+        ('alias', chain)               the local holds chain(param), chain = tuple of normalising transforms
+        ('parts', chain, sep, plus)    the local holds the list chain(param) split on the characters of sep (runs of them when plus)
+        ('match', T, F)                the local holds a match object (T) or None (F)
+        ('bool', T, F)                 the local holds a value that is truthy on T and falsy on F
+    """
+
+    _fresh = [0]
+
+    def __init__(self, m: pf.Module, fn: Optional[pf.FuncDef], param: str, package_roots: Optional[Dict[str, str]] = None,
+                 parent: Optional['Translator'] = None):
         self.m = m
         self.fn = fn
         self.param = param
-        self.roots = package_roots
-        self.regex_uses: List[dict] = []  # for diagnostics: every regex call translated
-        self.idioms: List[str] = []
+        self.roots = package_roots if parent is None else parent.roots
+        self.regex_uses: List[dict] = [] if parent is None else parent.regex_uses  # for diagnostics: every regex call translated
+        self.idioms: List[str] = [] if parent is None else parent.idioms
+        self.env: Dict[str, tuple] = {}
 
     # ---- helpers
     def _is_param(self, e: ast.AST) -> bool:
-        return isinstance(e, ast.Name) and e.id == self.param
+        if isinstance(e, ast.Name):
+            if e.id == self.param:
+                return True
+            ent = self.env.get(e.id)
+            return ent is not None and ent[0] == 'alias' and not ent[1]
+        return False
 
     def _fail(self, e: ast.AST, what: str = 'string-predicate idiom'):
-        raise AnalysisError(f'{self.m.rel}: unrecognised {what} `{pf.nsrc(e)}` (line {getattr(e, "lineno", "?")})')
+        raise AnalysisError(f'{self.m.rel}: unrecognised {what} `{pf.nsrc(e)[:100]}` (line {getattr(e, "lineno", "?")})')
 
     def _lits(self, e: ast.AST) -> List[str]:
         """A string literal or a tuple/list/set of them."""
@@ -320,6 +418,286 @@ class Translator:
         if kind not in self.idioms:
             self.idioms.append(kind)
 
+    def _sub(self, var: str, env: Optional[Dict[str, tuple]] = None) -> 'Translator':
+        t = Translator(self.m, self.fn, var, parent=self)
+        t.env = dict(env or {})
+        return t
+
+    def _charset_of(self, x: ast.AST, e: ast.AST) -> R.CharSet:
+        """The characters of a string constant / of a collection of one-character strings (`c in X`, set(X))."""
+        if isinstance(x, ast.Call) and pf.dotted(x.func) in ('set', 'frozenset', 'list', 'tuple') and len(x.args) == 1 and not x.keywords:
+            return self._charset_of(x.args[0], e)
+        if isinstance(x, (ast.Tuple, ast.List, ast.Set)):
+            items = [const_string(self.m, self.fn, y) for y in x.elts]
+            if any(len(s) != 1 for s in items):
+                self._fail(e, 'character collection')
+            return R.CharSet.of(items)
+        if isinstance(x, ast.Name) and not _is_local(self.fn, x.id) and x.id not in imports_of(self.m):
+            try:
+                v = module_const(self.m, x.id)
+            except AnalysisError:
+                v = None
+            if v is not None and not isinstance(v, ast.Name) and (isinstance(v, (ast.Tuple, ast.List, ast.Set, ast.Call))):
+                return self._charset_of(v, e)
+        return R.CharSet.of(const_string(self.m, self.fn, x))
+
+    # ---- normalising transforms -------------------------------------------------------------------------------------------
+    def _chain(self, e: ast.AST) -> Optional[tuple]:
+        """e == chain(param) for a tuple of transforms (possibly empty), else None."""
+        if isinstance(e, ast.Name):
+            if e.id == self.param:
+                return ()
+            ent = self.env.get(e.id)
+            if ent is not None and ent[0] == 'alias':
+                return ent[1]
+            return None
+        if isinstance(e, ast.Call) and isinstance(e.func, ast.Attribute) and not e.keywords:
+            a = e.func.attr
+            if a in _CASE_MAPS and not e.args:
+                base = self._chain(e.func.value)
+                return None if base is None else base + (('map', a),)
+            if a in ('strip', 'lstrip', 'rstrip') and len(e.args) <= 1:
+                base = self._chain(e.func.value)
+                if base is None:
+                    return None
+                if not e.args or (isinstance(e.args[0], ast.Constant) and e.args[0].value is None):
+                    cs = R.pred('str.isspace')
+                else:
+                    cs = R.CharSet.of(const_string(self.m, self.fn, e.args[0]))
+                return base + (('strip', a != 'rstrip', a != 'lstrip', cs),)
+            if a == 'replace' and len(e.args) == 2:
+                base = self._chain(e.func.value)
+                if base is None:
+                    return None
+                x, y = const_string(self.m, self.fn, e.args[0]), const_string(self.m, self.fn, e.args[1])
+                if len(x) != 1:
+                    raise AnalysisError(f'{self.m.rel}: `{pf.nsrc(e)}` replaces a multi-character substring; not recognised')
+                return base + (('replace', x, y),)
+            return None
+        if isinstance(e, ast.Subscript) and isinstance(e.slice, ast.Slice) and e.slice.step is None:
+            base = self._chain(e.value)
+            if base is None:
+                return None
+            lo = None if e.slice.lower is None else _int_const(e.slice.lower)
+            hi = None if e.slice.upper is None else _int_const(e.slice.upper)
+            if (e.slice.lower is not None and lo is None) or (e.slice.upper is not None and hi is None):
+                raise AnalysisError(f'{self.m.rel}: non-constant slice `{pf.nsrc(e)}`')
+            out = base
+            if lo is not None and lo != 0:
+                if abs(lo) > _LEN_LIMIT:
+                    raise AnalysisError(f'{self.m.rel}: slice bound too large in `{pf.nsrc(e)}`')
+                if lo < 0:
+                    if hi is not None:
+                        raise AnalysisError(f'{self.m.rel}: slice `{pf.nsrc(e)}` not recognised')
+                    return out + (('last', -lo),)
+                out = out + (('drop', lo),)
+            if hi is not None:
+                if abs(hi) > _LEN_LIMIT:
+                    raise AnalysisError(f'{self.m.rel}: slice bound too large in `{pf.nsrc(e)}`')
+                if hi < 0:
+                    out = out + (('droplast', -hi),)
+                else:
+                    if lo is not None and lo > 0:
+                        if hi < lo:
+                            raise AnalysisError(f'{self.m.rel}: slice `{pf.nsrc(e)}` not recognised')
+                        out = out + (('first', hi - lo),)
+                    else:
+                        out = out + (('first', hi),)
+            return out
+        return None
+
+    def _pre1(self, L: R.Lang, t: tuple) -> R.Lang:
+        anyc = R.anychar()
+        if t[0] == 'map':
+            f = _CASE_MAPS[t[1]]
+            exc = R.char_map('str.' + t[1], f)
+            alts = {_SIGMA: ['ς', 'σ']} if t[1] == 'lower' else None
+            return R.preimage(L, exc, t[1], alts)
+        if t[0] == 'strip':
+            return R.strip_preimage(L, t[3], t[1], t[2])
+        if t[0] == 'replace':
+            return R.preimage(L, {ord(t[1]): t[2]}, f'replace({t[1]!r},{t[2]!r})')
+        eps_in = L & R.lang(R.EPS, 'empty')
+        if t[0] == 'drop':  # s[k:]
+            k = t[1]
+            return R.lang(R.seq(_any_n(k), R.as_re(L)), f'[{k}:]^-1') | R.lang(R.seq(R.rep(anyc, 0, k - 1), R.as_re(eps_in)), 'short')
+        if t[0] == 'droplast':  # s[:-k]
+            k = t[1]
+            return R.lang(R.seq(R.as_re(L), _any_n(k)), f'[:-{k}]^-1') | R.lang(R.seq(R.rep(anyc, 0, k - 1), R.as_re(eps_in)), 'short')
+        if t[0] == 'first':  # s[:k]
+            k = t[1]
+            short = L & R.lang(R.rep(anyc, 0, k), f'len<={k}')
+            exact = L & R.lang(_any_n(k), f'len=={k}')
+            return short | R.lang(R.seq(R.as_re(exact), R.star(anyc)), f'[:{k}]^-1')
+        if t[0] == 'last':  # s[-k:]
+            k = t[1]
+            short = L & R.lang(R.rep(anyc, 0, k), f'len<={k}')
+            exact = L & R.lang(_any_n(k), f'len=={k}')
+            return short | R.lang(R.seq(R.star(anyc), R.as_re(exact)), f'[-{k}:]^-1')
+        raise AnalysisError(f'strpred internal: transform {t[0]}')
+
+    def preimage(self, L: R.Lang, chain: tuple) -> R.Lang:
+        """{ s : chain(s) in L }"""
+        for t in reversed(chain):
+            L = self._pre1(L, t)
+        if chain:
+            self._note('normalised before the test: ' + '.'.join(x[0] if x[0] != 'map' else x[1] for x in chain))
+        return L
+
+    def _fixed(self, chain: tuple, e: ast.AST) -> R.Lang:
+        """{ s : chain(s) == s } for a single transform."""
+        if len(chain) != 1:
+            self._fail(e, 'comparison of a string with its normalised form')
+        t = chain[0]
+        anyc = R.anychar()
+        if t[0] == 'map':
+            self._note(f's == s.{t[1]}()')
+            return R.lang(R.star(R.chars(fixed_points(t[1]))), f'fixed by {t[1]}')
+        if t[0] == 'strip':
+            self._note('s == s.strip()')
+            inner = R.chars(~t[3])
+            mid = R.star(anyc)
+            if t[1] and t[2]:
+                return R.lang(R.alt(R.EPS, inner, R.seq(inner, mid, inner)), 'no padding')
+            if t[1]:
+                return R.lang(R.alt(R.EPS, R.seq(inner, mid)), 'no leading padding')
+            return R.lang(R.alt(R.EPS, R.seq(mid, inner)), 'no trailing padding')
+        if t[0] == 'replace':
+            if t[1] == t[2]:
+                return R.everything()
+            return R.lang(R.star(R.chars(~R.CharSet.of(t[1]))), f'without {t[1]!r}')
+        self._fail(e, 'comparison of a string with its normalised form')
+        raise AssertionError
+
+    # ---- splitting ----------------------------------------------------------------------------------------------------------
+    def _sep_of_regex(self, rd: RegexDef, e: ast.AST) -> Tuple[R.CharSet, bool]:
+        if R.regex_groups(rd.pattern, rd.flags):
+            raise AnalysisError(f'{self.m.rel}: split pattern {rd.pattern!r} has capture groups (`{pf.nsrc(e)[:80]}`); not recognised')
+
+        def sets(node) -> Optional[R.CharSet]:
+            if node[0] == 'set':
+                return node[1]
+            if node[0] == 'alt':
+                parts = [sets(x) for x in node[1]]
+                if all(p is not None for p in parts):
+                    out = R.CharSet.empty()
+                    for p in parts:
+                        out = out | p  # type: ignore[operator]
+                    return out
+            if node[0] == 'cat' and len(node[1]) == 1:
+                return sets(node[1][0])
+            return None
+
+        node = R.regex_to_re(rd.pattern, rd.flags)
+        cs = sets(node)
+        if cs is not None and cs:
+            return cs, False
+        if node[0] == 'rep' and node[2] == 1 and node[3] is None:
+            cs = sets(node[1])
+            if cs is not None and cs:
+                return cs, True
+        raise AnalysisError(f'{self.m.rel}: split pattern {rd.pattern!r} is not a single character class (optionally with +); not recognised')
+
+    def _split_call(self, e: ast.AST) -> Optional[Tuple[ast.AST, R.CharSet, bool]]:
+        """`re.split(<char class>, X)` / `<regex>.split(X)` / `X.split('<c>')` -> (X, separators, runs?)"""
+        if not isinstance(e, ast.Call) or not isinstance(e.func, ast.Attribute) or e.func.attr != 'split':
+            return None
+        mods, _funcs = _re_module_names(self.m)
+        f = e.func
+        if isinstance(f.value, ast.Name) and f.value.id in mods and not _is_local(self.fn, f.value.id):
+            kw = {k.arg: k.value for k in e.keywords}
+            args = list(e.args)
+            if None in kw or not set(kw) <= {'pattern', 'string', 'flags'} or not 2 <= len(args) + len([k for k in kw if k != 'flags']) or len(args) > 2:
+                raise AnalysisError(f'{self.m.rel}: unrecognised call `{pf.nsrc(e)[:80]}` (maxsplit?)')
+            pat_e = args[0] if args else kw.get('pattern')
+            sub_e = args[1] if len(args) > 1 else kw.get('string')
+            if pat_e is None or sub_e is None:
+                raise AnalysisError(f'{self.m.rel}: unrecognised call `{pf.nsrc(e)[:80]}`')
+            try:
+                rd = resolve_regex(self.m, self.fn, pat_e, self.roots)
+                if 'flags' in kw:
+                    raise AnalysisError(f'{self.m.rel}: flags together with a compiled pattern in `{pf.nsrc(e)[:80]}`')
+            except AnalysisError:
+                rd = RegexDef(const_string(self.m, self.fn, pat_e), flags_value(self.m, kw.get('flags')), f'{self.m.rel}: {pf.nsrc(e)}', e, self.m.rel, None)
+            cs, plus = self._sep_of_regex(rd, e)
+            self._note('re.split(<class>, s)')
+            return sub_e, cs, plus
+        # <regex object>.split(X)
+        try:
+            rd2: Optional[RegexDef] = resolve_regex(self.m, self.fn, f.value, self.roots)
+        except AnalysisError:
+            rd2 = None
+        if rd2 is not None:
+            if e.keywords or len(e.args) != 1:
+                raise AnalysisError(f'{self.m.rel}: unrecognised call `{pf.nsrc(e)[:80]}` (maxsplit?)')
+            cs, plus = self._sep_of_regex(rd2, e)
+            self._note('regex.split(s)')
+            return e.args[0], cs, plus
+        # X.split('<c>')
+        if not e.keywords and len(e.args) == 1:
+            sep = const_string(self.m, self.fn, e.args[0])
+            if len(sep) != 1:
+                raise AnalysisError(f'{self.m.rel}: `{pf.nsrc(e)[:80]}` splits on a multi-character separator; not recognised')
+            self._note("s.split('c')")
+            return f.value, R.CharSet.of(sep), False
+        if not e.keywords and not e.args:
+            raise AnalysisError(f'{self.m.rel}: whitespace split `{pf.nsrc(e)[:80]}` is not recognised')
+        return None
+
+    def parts_spec(self, e: ast.AST) -> Optional[Tuple[tuple, R.CharSet, bool]]:
+        """e is a list of parts of chain(param): -> (chain, separator characters, runs?)"""
+        if isinstance(e, ast.Name):
+            ent = self.env.get(e.id)
+            if ent is not None and ent[0] == 'parts':
+                return ent[1], ent[2], ent[3]
+            return None
+        sc = self._split_call(e)
+        if sc is None:
+            return None
+        subj, cs, plus = sc
+        ch = self._chain(subj)
+        if ch is None:
+            raise AnalysisError(f'{self.m.rel}: `{pf.nsrc(e)[:80]}` does not split the string {self.param}; not recognised')
+        return ch, cs, plus
+
+    def iterate(self, kind: str, passing: R.Lang, hit: R.Lang, sep: Optional[R.CharSet] = None, plus: bool = False) -> Pair:
+        """Scan of the elements of the string in order (kind 'chars': its characters; 'parts': its parts between separators):
+        -> (every element is in `passing`,  some element is in `hit` and all elements before it are in `passing`)."""
+        anyc = R.anychar()
+        if kind == 'chars':
+            one = _one_char()
+            p1, h1 = R.as_re(passing & one), R.as_re(hit & one)
+            return R.lang(R.star(p1), 'all chars pass'), R.lang(R.seq(R.star(p1), h1, R.star(anyc)), 'first hit')
+        assert sep is not None
+        nosep = R.lang(R.star(R.chars(~sep)), 'no separator')
+        S = R.chars(sep)
+        if not plus:
+            p, h, a = R.as_re(passing & nosep), R.as_re(hit & nosep), R.as_re(nosep)
+            return (R.lang(R.seq(p, R.star(R.seq(S, p))), 'all parts pass'),
+                    R.lang(R.seq(R.star(R.seq(p, S)), h, R.star(R.seq(S, a))), 'first hit'))
+        # runs of separators: interior parts are never empty, the first and the last may be
+        SS = R.plus(S)
+        ne = R.lang(R.plus(R.chars(~sep)), 'non-empty, no separator')
+        eps = R.lang(R.EPS, 'empty')
+        p0, pne, peps = R.as_re(passing & nosep), R.as_re(passing & ne), R.as_re(passing & eps)
+        h0, hne, heps = R.as_re(hit & nosep), R.as_re(hit & ne), R.as_re(hit & eps)
+        ane = R.as_re(ne)
+        allpass = R.seq(p0, R.star(R.seq(SS, pne)), R.opt(R.seq(SS, peps)))
+        tail = R.seq(R.star(R.seq(SS, ane)), R.opt(SS))
+        prefix = R.seq(p0, R.star(R.seq(SS, pne)), SS)
+        hitl = R.alt(R.seq(h0, tail), R.seq(prefix, hne, tail), R.seq(prefix, heps))
+        return R.lang(allpass, 'all parts pass'), R.lang(hitl, 'first hit')
+
+    def iter_spec(self, it: ast.AST) -> Optional[Tuple[tuple, str, Optional[R.CharSet], bool]]:
+        """What a loop / comprehension iterates over: (chain, 'chars'|'parts', separators, runs?)"""
+        ch = self._chain(it)
+        if ch is not None:
+            return ch, 'chars', None, False
+        ps = self.parts_spec(it)
+        if ps is not None:
+            return ps[0], 'parts', ps[1], ps[2]
+        return None
+
     # ---- character predicates  P(c)
     def charset(self, e: ast.AST, var: str) -> R.CharSet:
         def is_var(x: ast.AST) -> bool:
@@ -329,12 +707,7 @@ class Translator:
             d = pf.dotted(x)
             if d in _STRING_CONSTANTS and d.split('.')[0] in imports_of(self.m) and imports_of(self.m)[d.split('.')[0]] == 'string':
                 return R.CharSet.of(_STRING_CONSTANTS[d])
-            if isinstance(x, (ast.Tuple, ast.List, ast.Set)):
-                items = [const_string(self.m, self.fn, y) for y in x.elts]
-                if any(len(s) != 1 for s in items):
-                    self._fail(e, 'character predicate')
-                return R.CharSet.of(items)
-            return R.CharSet.of(const_string(self.m, self.fn, x))  # `c in 'abc'`: substring test of a 1-char string
+            return self._charset_of(x, e)
 
         if isinstance(e, ast.BoolOp):
             sets = [self.charset(v, var) for v in e.values]
@@ -355,6 +728,11 @@ class Translator:
                 op, left, right = e.ops[0], e.left, e.comparators[0]
                 if isinstance(op, (ast.Eq, ast.NotEq)) and (is_var(left) or is_var(right)):
                     other = right if is_var(left) else left
+                    if isinstance(other, ast.Call) and isinstance(other.func, ast.Attribute) and is_var(other.func.value) \
+                            and other.func.attr in _CASE_MAPS and not other.args and not other.keywords:
+                        cs = fixed_points(other.func.attr)
+                        self._note(f'c == c.{other.func.attr}()')
+                        return cs if isinstance(op, ast.Eq) else ~cs
                     s = const_string(self.m, self.fn, other)
                     cs = R.CharSet.of(s) if len(s) == 1 else R.CharSet.empty()
                     self._note("c == 'x'")
@@ -371,104 +749,360 @@ class Translator:
                     b = ord(hi) - (1 if isinstance(e.ops[1], ast.Lt) else 0)
                     self._note("'a' <= c <= 'z'")
                     return R.CharSet([(a, b)])
+            # ord(c) <op> n  /  a <= ord(c) <= b
+            def is_ord(x: ast.AST) -> bool:
+                return isinstance(x, ast.Call) and pf.dotted(x.func) == 'ord' and len(x.args) == 1 and not x.keywords and is_var(x.args[0])
+            if len(e.ops) == 1 and is_ord(e.left) and _int_const(e.comparators[0]) is not None:
+                n = _int_const(e.comparators[0])
+                assert n is not None
+                table = {ast.Lt: (0, n - 1), ast.LtE: (0, n), ast.Gt: (n + 1, R.MAXCP), ast.GtE: (n, R.MAXCP), ast.Eq: (n, n)}
+                if type(e.ops[0]) in table:
+                    a, b = table[type(e.ops[0])]
+                    self._note('ord(c) <op> n')
+                    return R.CharSet([(max(a, 0), min(b, R.MAXCP))])
+                if isinstance(e.ops[0], ast.NotEq):
+                    return ~R.CharSet([(max(n, 0), min(n, R.MAXCP))]) if 0 <= n <= R.MAXCP else R.ANY
+            if len(e.ops) == 2 and is_ord(e.comparators[0]) and all(isinstance(o, (ast.LtE, ast.Lt)) for o in e.ops) \
+                    and _int_const(e.left) is not None and _int_const(e.comparators[1]) is not None:
+                a = _int_const(e.left) + (1 if isinstance(e.ops[0], ast.Lt) else 0)  # type: ignore[operator]
+                b = _int_const(e.comparators[1]) - (1 if isinstance(e.ops[1], ast.Lt) else 0)  # type: ignore[operator]
+                self._note('a <= ord(c) <= b')
+                return R.CharSet([(max(a, 0), min(b, R.MAXCP))])
         self._fail(e, 'character predicate')
         raise AssertionError
 
     # ---- string predicates
     def cond(self, e: ast.AST) -> R.Lang:
-        anyc = R.anychar()
+        """Language of the values of `param` for which e is truthy."""
+        return self.cond2(e)[0]
+
+    def cond2(self, e: ast.AST) -> Pair:
+        """(language on which e is truthy, language on which e is falsy); on all other strings the evaluation raises."""
         if isinstance(e, ast.BoolOp):
-            ls = [self.cond(v) for v in e.values]
-            out = ls[0]
-            for x in ls[1:]:
-                out = (out & x) if isinstance(e.op, ast.And) else (out | x)
-            return out
+            T, F = self.cond2(e.values[0])
+            for v in e.values[1:]:
+                T2, F2 = self.cond2(v)
+                if isinstance(e.op, ast.And):
+                    T, F = T & T2, F | (T & F2)
+                else:
+                    T, F = T | (F & T2), F & F2
+            return T, F
         if isinstance(e, ast.UnaryOp) and isinstance(e.op, ast.Not):
-            return ~self.cond(e.operand)
+            T, F = self.cond2(e.operand)
+            return F, T
         if isinstance(e, ast.Constant):
-            return R.everything() if e.value else R.nothing()
+            return (R.everything(), R.nothing()) if e.value else (R.nothing(), R.everything())
+        if isinstance(e, ast.IfExp):
+            Tt, Ft = self.cond2(e.test)
+            Ta, Fa = self.cond2(e.body)
+            Tb, Fb = self.cond2(e.orelse)
+            return (Tt & Ta) | (Ft & Tb), (Tt & Fa) | (Ft & Fb)
+        return self._atomic(e)
+
+    def _scan(self, e: ast.AST) -> List[tuple]:
+        """The chains of the maximal sub-expressions of e that are normalised copies of the parameter (and of the split locals)."""
+        out: List[tuple] = []
+        bound = {self.param} | set(self.env)
+
+        def walk(n: ast.AST) -> None:
+            ch = self._chain(n)
+            if ch is not None:
+                out.append(ch)
+                return
+            if isinstance(n, ast.Name):
+                ent = self.env.get(n.id)
+                if ent is not None and ent[0] == 'parts':
+                    out.append(ent[1])
+                elif ent is not None:
+                    out.append(())
+                return
+            if isinstance(n, ast.comprehension):
+                for x in ast.walk(n.target):
+                    if isinstance(x, ast.Name) and x.id in bound:
+                        raise AnalysisError(f'{self.m.rel}: comprehension variable shadows `{x.id}` (line {getattr(x, "lineno", "?")})')
+            if isinstance(n, ast.Lambda):
+                raise AnalysisError(f'{self.m.rel}: lambda inside a string predicate (line {n.lineno})')
+            for c in ast.iter_child_nodes(n):
+                walk(c)
+
+        walk(e)
+        return out
+
+    def _atomic(self, e: ast.AST) -> Pair:
+        chains = self._scan(e)
+        if chains:
+            n = 0
+            first = chains[0]
+            while n < len(first) and all(len(c) > n and c[n] == first[n] for c in chains):
+                n += 1
+            prefix = first[:n]
+            if prefix:
+                # every use of the parameter in e goes through the same normalisation: translate over the normalised value v and
+                # take the preimage
+                import copy
+                Translator._fresh[0] += 1
+                fresh = f'_v{Translator._fresh[0]}'
+                outer = self
+
+                class Sub(ast.NodeTransformer):
+                    def visit(self, node):  # noqa: N802
+                        if isinstance(node, ast.expr) and outer._chain(node) == prefix:
+                            return ast.copy_location(ast.Name(id=fresh, ctx=ast.Load()), node)
+                        return self.generic_visit(node)
+
+                e2 = Sub().visit(copy.deepcopy(e))
+                env2: Dict[str, tuple] = {}
+                for name, ent in self.env.items():
+                    if ent[0] in ('alias', 'parts') and ent[1][:n] == prefix and len(ent[1]) >= n:
+                        if ent[0] == 'alias' and len(ent[1]) == n:
+                            continue  # replaced by the fresh variable
+                        env2[name] = (ent[0], ent[1][n:]) + tuple(ent[2:])
+                sub = self._sub(fresh, env2)
+                T, F = sub.cond2(e2)
+                return self.preimage(T, prefix), self.preimage(F, prefix)
+        return self._base(e)
+
+    def _elementwise(self, e: ast.AST) -> Optional[Pair]:
+        """e mentions the parameter only as s[k] for one constant index k: a predicate on that character (IndexError otherwise)."""
+        idx: List[int] = []
+        other = [False]
+
+        def walk(n: ast.AST) -> None:
+            if isinstance(n, ast.Subscript) and self._is_param(n.value) and not isinstance(n.slice, ast.Slice):
+                k = _int_const(n.slice)
+                if k is None:
+                    other[0] = True
+                else:
+                    idx.append(k)
+                return
+            if self._is_param(n):
+                other[0] = True
+                return
+            for c in ast.iter_child_nodes(n):
+                walk(c)
+
+        walk(e)
+        if not idx or other[0] or len(set(idx)) != 1 or abs(idx[0]) > _LEN_LIMIT:
+            return None
+        k = idx[0]
+        import copy
+        Translator._fresh[0] += 1
+        fresh = f'_c{Translator._fresh[0]}'
+        outer = self
+
+        class Sub(ast.NodeTransformer):
+            def visit_Subscript(self, node):  # noqa: N802
+                if outer._is_param(node.value) and _int_const(node.slice) == k:
+                    return ast.copy_location(ast.Name(id=fresh, ctx=ast.Load()), node)
+                return self.generic_visit(node)
+
+        e2 = Sub().visit(copy.deepcopy(e))
+        sub = self._sub(fresh)
+        T, F = sub.cond2(e2)
+        one = _one_char()
+        anyc = R.anychar()
+        self._note(f's[{k}]')
+
+        def place(L: R.Lang) -> R.Lang:
+            c = R.as_re(L & one)
+            if k >= 0:
+                return R.lang(R.seq(_any_n(k), c, R.star(anyc)), f's[{k}] in {L.label}')
+            return R.lang(R.seq(R.star(anyc), c, _any_n(-k - 1)), f's[{k}] in {L.label}')
+        return place(T), place(F)
+
+    def _len_cmp(self, op: ast.cmpop, n: int) -> Optional[R.Lang]:
+        anyc = R.anychar()
+        if not -1 <= n <= _LEN_LIMIT:
+            return None
+        table = {ast.Lt: (0, n - 1), ast.LtE: (0, n), ast.Gt: (n + 1, None), ast.GtE: (n, None), ast.Eq: (n, n)}
+        if type(op) in table:
+            lo, hi = table[type(op)]
+            lo = max(lo, 0)
+            if hi is not None and hi < 0:
+                return R.nothing()
+            return R.lang(R.rep(anyc, lo, hi), f'len in [{lo},{hi}]')
+        if isinstance(op, ast.NotEq):
+            if n < 0:
+                return R.everything()
+            return ~R.lang(R.rep(anyc, n, n), f'len == {n}')
+        return None
+
+    def _is_len(self, x: ast.AST) -> bool:
+        return isinstance(x, ast.Call) and pf.dotted(x.func) == 'len' and len(x.args) == 1 and not x.keywords and self._is_param(x.args[0])
+
+    def _is_set_of_param(self, x: ast.AST) -> bool:
+        return isinstance(x, ast.Call) and pf.dotted(x.func) in ('set', 'frozenset') and len(x.args) == 1 and not x.keywords \
+            and self._is_param(x.args[0])
+
+    def _base(self, e: ast.AST) -> Pair:
+        anyc = R.anychar()
+        el = self._elementwise(e)
+        if el is not None:
+            return el
+        if isinstance(e, ast.Name):
+            ent = self.env.get(e.id)
+            if ent is not None and ent[0] in ('match', 'bool'):
+                return ent[1], ent[2]
         if self._is_param(e):
             self._note('truthiness of the string')
-            return R.lang(R.plus(anyc), 'non-empty')
+            return _total(R.lang(R.plus(anyc), 'non-empty'))
         if isinstance(e, ast.Compare) and len(e.ops) == 1:
             op, left, right = e.ops[0], e.left, e.comparators[0]
-            if self._is_param(left) and isinstance(right, ast.Constant) and right.value is None and isinstance(op, (ast.Is, ast.IsNot)):
+            is_none = isinstance(right, ast.Constant) and right.value is None and isinstance(op, (ast.Is, ast.IsNot, ast.Eq, ast.NotEq))
+            negate = isinstance(op, (ast.Is, ast.Eq))
+            if is_none and isinstance(left, ast.Constant):
+                v = (left.value is None) == negate
+                return (R.everything(), R.nothing()) if v else (R.nothing(), R.everything())
+            if is_none and self._is_param(left):
                 self._note('x is None')
-                return R.nothing() if isinstance(op, ast.Is) else R.everything()
+                return (R.nothing(), R.everything()) if negate else (R.everything(), R.nothing())
+            if is_none and isinstance(left, ast.Name) and self.env.get(left.id, ('',))[0] == 'match':
+                _k, T, F = self.env[left.id]
+                return (F, T) if negate else (T, F)
             # regex call compared with None
-            if isinstance(right, ast.Constant) and right.value is None and isinstance(op, (ast.Is, ast.IsNot)) and isinstance(left, ast.Call):
+            if is_none and isinstance(left, ast.Call):
                 L = self._regex(left)
                 if L is not None:
-                    return ~L if isinstance(op, ast.Is) else L
+                    return _total(~L if negate else L)
             if isinstance(op, (ast.In, ast.NotIn)):
                 if self._is_param(right):
                     s = const_string(self.m, self.fn, left)
                     self._note("'lit' in s")
                     L = R.lang(R.seq(R.star(anyc), R.lit(s), R.star(anyc)), f'contains {s!r}')
-                    return L if isinstance(op, ast.In) else ~L
-                if self._is_param(left) and isinstance(right, (ast.Tuple, ast.List, ast.Set)):
-                    lits = self._lits(right)
-                    self._note("s in ('a', 'b')")
-                    L = R.lang(self._any_of(lits), f'one of {lits!r}')
-                    return L if isinstance(op, ast.In) else ~L
+                    return _total(L if isinstance(op, ast.In) else ~L)
+                if self._is_param(left):
+                    lits: Optional[List[str]] = None
+                    if isinstance(right, (ast.Tuple, ast.List, ast.Set)):
+                        lits = self._lits(right)
+                    elif isinstance(right, ast.Name) and not _is_local(self.fn, right.id):
+                        v2 = None
+                        try:
+                            v2 = module_const(self.m, right.id) if right.id not in imports_of(self.m) else None
+                        except AnalysisError:
+                            v2 = None
+                        if isinstance(v2, (ast.Tuple, ast.List, ast.Set)):
+                            lits = [const_string(self.m, None, x) for x in v2.elts]
+                        elif isinstance(v2, ast.Call) and pf.dotted(v2.func) in ('set', 'frozenset', 'tuple', 'list') and len(v2.args) == 1 \
+                                and isinstance(v2.args[0], (ast.Tuple, ast.List, ast.Set)):
+                            lits = [const_string(self.m, None, x) for x in v2.args[0].elts]
+                    if lits is not None:
+                        self._note("s in ('a', 'b')")
+                        L = R.lang(self._any_of(lits), f'one of {lits!r}')
+                        return _total(L if isinstance(op, ast.In) else ~L)
             if isinstance(op, (ast.Eq, ast.NotEq)) and (self._is_param(left) or self._is_param(right)):
-                s = const_string(self.m, self.fn, right if self._is_param(left) else left)
-                self._note("s == 'lit'")
-                L = R.lang(R.lit(s), f'== {s!r}')
-                return L if isinstance(op, ast.Eq) else ~L
-            # len(s) <op> n
-            if isinstance(left, ast.Call) and pf.dotted(left.func) == 'len' and len(left.args) == 1 and self._is_param(left.args[0]) \
-                    and isinstance(right, ast.Constant) and isinstance(right.value, int) and not isinstance(right.value, bool) \
-                    and 0 <= right.value <= 400:
-                n = right.value
-                self._note('len(s) <op> n')
-                table = {ast.Lt: (0, n - 1), ast.LtE: (0, n), ast.Gt: (n + 1, None), ast.GtE: (n, None), ast.Eq: (n, n)}
-                if type(op) in table:
-                    lo, hi = table[type(op)]
-                    if hi is not None and hi < 0:
-                        return R.nothing()
-                    return R.lang(R.rep(anyc, lo, hi), f'len in [{lo},{hi}]')
-                if isinstance(op, ast.NotEq):
-                    return ~R.lang(R.rep(anyc, n, n), f'len == {n}')
+                other = right if self._is_param(left) else left
+                ch = self._chain(other)
+                if ch is not None:
+                    L = R.everything() if not ch else self._fixed(ch, e)
+                else:
+                    s = const_string(self.m, self.fn, other)
+                    self._note("s == 'lit'")
+                    L = R.lang(R.lit(s), f'== {s!r}')
+                return _total(L if isinstance(op, ast.Eq) else ~L)
+            # len(s) <op> n   /   n <op> len(s)
+            if self._is_len(left) and _int_const(right) is not None:
+                L2 = self._len_cmp(op, _int_const(right))  # type: ignore[arg-type]
+                if L2 is not None:
+                    self._note('len(s) <op> n')
+                    return _total(L2)
+            if self._is_len(right) and _int_const(left) is not None:
+                flip = {ast.Lt: ast.Gt, ast.LtE: ast.GtE, ast.Gt: ast.Lt, ast.GtE: ast.LtE, ast.Eq: ast.Eq, ast.NotEq: ast.NotEq}
+                if type(op) in flip:
+                    L2 = self._len_cmp(flip[type(op)](), _int_const(left))  # type: ignore[arg-type]
+                    if L2 is not None:
+                        self._note('len(s) <op> n')
+                        return _total(L2)
+            # set(s) <= set(ALLOWED) and friends
+            if isinstance(op, (ast.LtE, ast.Lt, ast.GtE, ast.Gt)):
+                sub_e, sup_e = (left, right) if isinstance(op, (ast.LtE, ast.Lt)) else (right, left)
+                if self._is_set_of_param(sub_e) and isinstance(op, (ast.LtE, ast.GtE)):
+                    cs = self._charset_of(sup_e, e)
+                    self._note('set(s) <= set(ALLOWED)')
+                    return _total(R.lang(R.star(R.chars(cs)), f'all chars in {cs.describe(4)}'))
+        if isinstance(e, ast.Compare) and len(e.ops) == 2 and self._is_len(e.comparators[0]) \
+                and _int_const(e.left) is not None and _int_const(e.comparators[1]) is not None:
+            flip = {ast.Lt: ast.Gt, ast.LtE: ast.GtE, ast.Gt: ast.Lt, ast.GtE: ast.LtE, ast.Eq: ast.Eq}
+            if type(e.ops[0]) in flip and type(e.ops[1]) in flip:
+                a = self._len_cmp(flip[type(e.ops[0])](), _int_const(e.left))  # type: ignore[arg-type]
+                b = self._len_cmp(e.ops[1], _int_const(e.comparators[1]))  # type: ignore[arg-type]
+                if a is not None and b is not None:
+                    self._note('a <= len(s) <= b')
+                    return _total(a & b)
+        if isinstance(e, ast.BinOp) and isinstance(e.op, (ast.Sub, ast.BitAnd)) and self._is_set_of_param(e.left):
+            cs = self._charset_of(e.right, e)
+            hit = cs if isinstance(e.op, ast.BitAnd) else ~cs
+            self._note('set(s) - set(ALLOWED)')
+            return _total(R.lang(R.seq(R.star(anyc), R.chars(hit), R.star(anyc)), f'some char in {hit.describe(4)}'))
         if isinstance(e, ast.Call):
             L = self._regex(e)
             if L is not None:
-                return L
+                return _total(L)
             f = e.func
             name = pf.dotted(f)
             if name == 'bool' and len(e.args) == 1 and not e.keywords:
-                return self.cond(e.args[0])
+                return self.cond2(e.args[0])
             if name == 'len' and len(e.args) == 1 and self._is_param(e.args[0]):
-                return R.lang(R.plus(anyc), 'non-empty')
+                return _total(R.lang(R.plus(anyc), 'non-empty'))
             if name == 'isinstance' and len(e.args) == 2 and self._is_param(e.args[0]) and pf.dotted(e.args[1]) == 'str':
                 self._note('isinstance(s, str)')
-                return R.everything()
+                return R.everything(), R.nothing()
+            if isinstance(f, ast.Attribute) and self._is_set_of_param(f.value) and len(e.args) == 1 and not e.keywords \
+                    and f.attr in ('issubset', 'isdisjoint'):
+                cs = self._charset_of(e.args[0], e)
+                self._note(f'set(s).{f.attr}(ALLOWED)')
+                return _total(R.lang(R.star(R.chars(cs if f.attr == 'issubset' else ~cs)), f'{f.attr} {cs.describe(4)}'))
+            if isinstance(f, ast.Attribute) and f.attr == 'issuperset' and len(e.args) == 1 and not e.keywords \
+                    and (self._is_param(e.args[0]) or self._is_set_of_param(e.args[0])) \
+                    and isinstance(f.value, ast.Call) and pf.dotted(f.value.func) in ('set', 'frozenset'):
+                cs = self._charset_of(f.value, e)
+                self._note('set(ALLOWED).issuperset(s)')
+                return _total(R.lang(R.star(R.chars(cs)), f'all chars in {cs.describe(4)}'))
             if isinstance(f, ast.Attribute) and self._is_param(f.value) and not e.keywords:
                 if f.attr in ('startswith', 'endswith') and len(e.args) == 1:
                     lits = self._lits(e.args[0])
                     self._note(f's.{f.attr}(lit)')
                     body = self._any_of(lits)
                     r = R.seq(body, R.star(anyc)) if f.attr == 'startswith' else R.seq(R.star(anyc), body)
-                    return R.lang(r, f'{f.attr} {lits!r}')
-                if not e.args and f.attr == 'isascii':
-                    self._note('s.isascii()')
-                    return R.lang(R.star(R.chars(R.pred('str.isascii'))), 'isascii')
-                if not e.args and f.attr in _ALL_CHARS_NONEMPTY:
-                    self._note(f's.{f.attr}()')
-                    return R.lang(R.plus(R.chars(R.pred('str.' + f.attr))), f.attr)
+                    return _total(R.lang(r, f'{f.attr} {lits!r}'))
+                if not e.args:
+                    W = whole_string_predicate(f.attr)
+                    if W is not None:
+                        self._note(f's.{f.attr}()')
+                        return _total(W)
             if name in ('all', 'any') and len(e.args) == 1 and not e.keywords and isinstance(e.args[0], (ast.GeneratorExp, ast.ListComp)):
                 g = e.args[0]
-                if len(g.generators) == 1 and not g.generators[0].is_async and isinstance(g.generators[0].target, ast.Name) \
-                        and self._is_param(g.generators[0].iter):
-                    var = g.generators[0].target.id
-                    cs = self.charset(g.elt, var)
-                    filt = R.ANY
-                    for cnd in g.generators[0].ifs:
-                        filt = filt & self.charset(cnd, var)
-                    self._note(f'{name}(P(c) for c in s)')
-                    if name == 'all':
-                        return R.lang(R.star(R.chars(cs | ~filt)), f'all chars in {cs.describe(4)}')
-                    return R.lang(R.seq(R.star(anyc), R.chars(cs & filt), R.star(anyc)), f'some char in {cs.describe(4)}')
+                if len(g.generators) == 1 and not g.generators[0].is_async and isinstance(g.generators[0].target, ast.Name):
+                    gen = g.generators[0]
+                    var = gen.target.id  # type: ignore[union-attr]
+                    if self._is_param(gen.iter):
+                        # fast path: pure character predicates
+                        try:
+                            cs = self.charset(g.elt, var)
+                            filt = R.ANY
+                            for cnd in gen.ifs:
+                                filt = filt & self.charset(cnd, var)
+                            self._note(f'{name}(P(c) for c in s)')
+                            if name == 'all':
+                                return _total(R.lang(R.star(R.chars(cs | ~filt)), f'all chars in {cs.describe(4)}'))
+                            return _total(R.lang(R.seq(R.star(anyc), R.chars(cs & filt), R.star(anyc)), f'some char in {cs.describe(4)}'))
+                        except AnalysisError:
+                            pass
+                    spec = self.iter_spec(gen.iter)
+                    if spec is not None and not spec[0]:
+                        _chain, kind, sep, plus = spec
+                        sub = self._sub(var)
+                        Te, Fe = sub.cond2(g.elt)
+                        Tq, Fq = R.everything(), R.nothing()
+                        for cnd in gen.ifs:
+                            T2, F2 = sub.cond2(cnd)
+                            Tq, Fq = Tq & T2, Fq | (Tq & F2)
+                        if name == 'all':
+                            passing, hit = Fq | (Tq & Te), Tq & Fe
+                        else:
+                            passing, hit = Fq | (Tq & Fe), Tq & Te
+                        allpass, hitl = self.iterate(kind, passing, hit, sep, plus)
+                        self._note(f'{name}(P(x) for x in <{kind} of s>)')
+                        return (allpass, hitl) if name == 'all' else (hitl, allpass)
         self._fail(e)
         raise AssertionError
 
@@ -490,56 +1124,120 @@ def function_language(m: pf.Module, fn: pf.FuncDef, param: str, accept: str, pac
     """Language of the strings accepted by a validator function of one string parameter.
        accept='bool'      accepted = the function returns a truthy value
        accept='no-raise'  accepted = the function returns (anything) without raising
-    Recognised statements: docstring, pass, if/elif/else, return, raise, assert, and single-assignment bindings of regex objects
-    or string literals.  Anything else -> AnalysisError."""
+    Recognised statements: docstring, pass, if/elif/else, return, raise, assert, `for` over the characters / split parts of the
+    string (bodies of the same statements plus continue), bindings of regex objects, string literals, normalised copies of the
+    parameter (also rebinding the parameter itself), split results, match objects and booleans.  Anything else -> AnalysisError."""
     if accept not in ('bool', 'no-raise'):
         raise AnalysisError('function_language: bad accept mode')
     tr = Translator(m, fn, param, package_roots)
     params = [a.arg for a in fn.args.args + fn.args.posonlyargs + fn.args.kwonlyargs]
     if param not in params:
         raise AnalysisError(f'{m.rel}::{fn.name}: no parameter named {param}')
-    if len(pf.assignments(fn).get(param, [])) != 1:
-        raise AnalysisError(f'{m.rel}::{fn.name}: parameter {param} is rebound in the body')
+    for b in pf.assignments(fn).get(param, []):
+        if not isinstance(b, (ast.arg, ast.expr)):
+            raise AnalysisError(f'{m.rel}::{fn.name}: parameter {param} is rebound by a statement that is not a plain assignment')
     budget = [4000]
+    where = f'{m.rel}::{fn.name}'
+    nothing, everything = R.nothing(), R.everything()
 
-    def simple_value(v: Optional[ast.AST]) -> bool:
-        return v is None or isinstance(v, (ast.Constant, ast.Name))
+    def bind(t: Translator, st: ast.stmt, name: str, value: ast.expr, env: Dict[str, tuple]) -> Optional[Dict[str, tuple]]:
+        """Environment after `name = value` when the value is something the translation can follow, else None."""
+        t.env = env
+        ch = t._chain(value)
+        if ch is not None:
+            return {**env, name: ('alias', ch)}
+        ps = t.parts_spec(value)
+        if ps is not None:
+            return {**env, name: ('parts',) + ps}
+        if isinstance(value, ast.Call) and regex_call(m, fn, value, package_roots) is not None:
+            T, F = t.cond2(value)
+            return {**env, name: ('match', T, F)}
+        return None
 
-    def T(stmts: List[ast.stmt]) -> R.Lang:
+    def run(t: Translator, stmts: List[ast.stmt], env: Dict[str, tuple], in_loop: bool) -> Tuple[R.Lang, R.Lang]:
+        """(A, C): values of t.param for which executing stmts ends in an accepting return / falls off the end (or `continue`s)."""
         budget[0] -= 1
         if budget[0] < 0:
-            raise AnalysisError(f'{m.rel}::{fn.name}: too many paths for the decision-list translation')
+            raise AnalysisError(f'{where}: too many paths for the decision-list translation')
         if not stmts:
-            return R.nothing() if accept == 'bool' else R.everything()
+            return nothing, everything
         st, rest = stmts[0], list(stmts[1:])
+        t.env = env
         if isinstance(st, ast.Expr) and isinstance(st.value, ast.Constant):
-            return T(rest)
+            return run(t, rest, env, in_loop)
         if isinstance(st, ast.Pass):
-            return T(rest)
+            return run(t, rest, env, in_loop)
         if isinstance(st, ast.If):
-            c = tr.cond(st.test)
-            return (c & T(list(st.body) + rest)) | (~c & T(list(st.orelse) + rest))
+            Tt, Ft = t.cond2(st.test)
+            A1, C1 = run(t, list(st.body) + rest, env, in_loop)
+            A2, C2 = run(t, list(st.orelse) + rest, env, in_loop)
+            return (Tt & A1) | (Ft & A2), (Tt & C1) | (Ft & C2)
         if isinstance(st, ast.Return):
-            if accept == 'no-raise':
-                if not simple_value(st.value):
-                    raise AnalysisError(f'{m.rel}::{fn.name}: `{pf.nsrc(st)}` may raise; not recognised')
-                return R.everything()
-            if st.value is None:
-                return R.nothing()
-            return tr.cond(st.value)
+            v = st.value
+            if v is None or (isinstance(v, ast.Constant)):
+                ok = accept == 'no-raise' or bool(v is not None and v.value)  # type: ignore[union-attr]
+                return (everything if ok else nothing), nothing
+            if accept == 'no-raise' and isinstance(v, ast.Name):
+                return everything, nothing
+            T, F = t.cond2(v)
+            return ((T | F) if accept == 'no-raise' else T), nothing
         if isinstance(st, ast.Raise):
-            return R.nothing()
+            return nothing, nothing
+        if isinstance(st, ast.Continue) and in_loop:
+            return nothing, everything
         if isinstance(st, ast.Assert):
-            return tr.cond(st.test) & T(rest)
+            Tt, _Ft = t.cond2(st.test)
+            A, C = run(t, rest, env, in_loop)
+            return Tt & A, Tt & C
         if isinstance(st, (ast.Assign, ast.AnnAssign)):
             tgt = st.targets[0] if isinstance(st, ast.Assign) and len(st.targets) == 1 else getattr(st, 'target', None)
-            if isinstance(tgt, ast.Name) and tgt.id != param and st.value is not None and pf.single_def(fn, tgt.id) is st.value:
-                # must be a regex object or a string literal; uses are resolved through def-use when they occur
-                try:
-                    resolve_regex(m, fn, st.value, package_roots)
-                except AnalysisError:
-                    const_string(m, fn, st.value)
-                return T(rest)
-        raise AnalysisError(f'{m.rel}::{fn.name}: unrecognised statement `{pf.nsrc(st)[:80]}` (line {st.lineno})')
+            if isinstance(tgt, ast.Name) and st.value is not None:
+                if tgt.id == t.param:
+                    ch = t._chain(st.value)
+                    if ch is None or env:
+                        raise AnalysisError(f'{where}: `{pf.nsrc(st)[:80]}` rebinds the validated variable in a way that is not recognised (line {st.lineno})')
+                    A, C = run(t, rest, {}, in_loop)
+                    return t.preimage(A, ch), t.preimage(C, ch)
+                env2 = bind(t, st, tgt.id, st.value, env)
+                if env2 is not None:
+                    return run(t, rest, env2, in_loop)
+                if pf.single_def(fn, tgt.id) is st.value:
+                    # a regex object or a string literal; uses are resolved through def-use when they occur
+                    try:
+                        resolve_regex(m, fn, st.value, package_roots)
+                        return run(t, rest, env, in_loop)
+                    except AnalysisError:
+                        pass
+                    try:
+                        const_string(m, fn, st.value)
+                        return run(t, rest, env, in_loop)
+                    except AnalysisError:
+                        pass
+                # a boolean computed from the string
+                T, F = t.cond2(st.value)
+                A, C = run(t, rest, {**env, tgt.id: ('bool', T, F)}, in_loop)
+                ok = T | F
+                return ok & A, ok & C
+        if isinstance(st, ast.For) and isinstance(st.target, ast.Name):
+            spec = t.iter_spec(st.iter)
+            if spec is None:
+                raise AnalysisError(f'{where}: cannot tell what `for {pf.nsrc(st.target)} in {pf.nsrc(st.iter)[:60]}` iterates over (line {st.lineno})')
+            chain, kind, sep, plus = spec
+            for x in ast.walk(st):
+                if isinstance(x, ast.Break):
+                    raise AnalysisError(f'{where}: `break` inside a loop over the string is not recognised (line {x.lineno})')
+            var = st.target.id
+            if var == t.param or var in env:
+                raise AnalysisError(f'{where}: loop variable {var} shadows a tracked name (line {st.lineno})')
+            sub = t._sub(var)
+            Ab, Cb = run(sub, list(st.body), {}, True)
+            t.env = env
+            allc, hitl = t.iterate(kind, Cb, Ab, sep, plus)
+            allc, hitl = t.preimage(allc, chain), t.preimage(hitl, chain)
+            t._note(f'for x in <{kind} of s>')
+            A, C = run(t, list(st.orelse) + rest, env, in_loop)
+            return hitl | (allc & A), allc & C
+        raise AnalysisError(f'{where}: unrecognised statement `{pf.nsrc(st)[:80]}` (line {st.lineno})')
 
-    return T(list(fn.body)), tr
+    A, C = run(tr, list(fn.body), {}, False)
+    return (A | C if accept == 'no-raise' else A), tr
